@@ -58,6 +58,11 @@ def run(ctx):
             ops = history(rng, sz, 60 if quick else 300)
             cases.append({"op": "reader", "content_hex": c.hex(), "reads": ops})
             meta.append((c, ops))
+    for sz in (0, 5, 4093, 4094, 6200):
+        c = b"\xef\xbb\xbf" + content(rng, sz)           # a file that begins with a byte order mark: offset 0 is its first byte
+        ops = [[0, 1], [0, 3], [0, 4], [3, 1], [1, 2], [0, len(c)], [len(c) - 1, 1], [2, 4094]] + history(rng, len(c), 30)
+        cases.append({"op": "reader", "content_hex": c.hex(), "reads": ops})
+        meta.append((c, ops))
     res = vh.run_cases(cases, shards=8, timeout_ms=30000)
     lines = []
     for i, (c, ops) in enumerate(meta):
@@ -112,6 +117,11 @@ def run(ctx):
                 continue
             rb.append({"op": "runboth", "src_hex": vh.hexs(p), "content_hex": c.hex()})
             rmeta.append((p, sz, c))
+    # a byte order mark, characters of several bytes, stray bytes: part of the text, on a file as in memory
+    for c in (b"\xef\xbb\xbfab 12 ab", b"\xef\xbb\xbf", b"ab\xef\xbb\xbfab", b"\xef\xbb\xbf\xef\xbb\xbfab\n12", b"\xc3\xa9ab \xe2\x82\xac12", b"\xff\xfea\x00b\x00", b"\xbb\xbfab", b"\xef\xbb\xbf" + content(rng, 4094), b"\xef\xbb\xbf" + content(rng, 6200)):
+        for p in ("find all 'ab'", "find all any", "find all file start any", "find all at least 1 digit", "find top 1 whole file", "find all line start at least 1 any fewest line end", "replace all 'ab' with 'X'", "find last 1 any any any"):
+            rb.append({"op": "runboth", "src_hex": vh.hexs(p), "content_hex": c.hex()})
+            rmeta.append((p, len(c), c))
     rres = vh.run_cases(rb, shards=12, timeout_ms=60000)
     for (p, sz, c), r in zip(rmeta, rres):
         if "panic" in r or r.get("hang") or r.get("fatal"):
